@@ -523,7 +523,7 @@ class MeshParametrized(Mesh):
         ]) == len(initial_space_mesh)
 
         # Ensure that the initial space consists at least of three elements.
-        if self.glue_space and len(self.roots) < 3:
+        if self.glue_space and len(initial_space_mesh) - 1 < 3:
             for elem in self.roots:
                 self.refine_space(elem)
             leaves = list(self.leaf_elements)
